@@ -6,7 +6,9 @@ src = os.path.join(wt, 'out', x)
 dst = os.path.join('/verif/seeded', sid)
 os.makedirs(dst, exist_ok=True)
 # re-base the patch on the current /repo HEAD through the trial worktree
-trial = '/tmp/trial'
+trial = '/tmp/rebase'
+if not os.path.isdir(trial):
+    subprocess.run(['git', '-C', '/repo', 'worktree', 'add', '-q', '--detach', trial, 'HEAD'], check=True)
 head = subprocess.check_output(['git', '-C', '/repo', 'rev-parse', 'HEAD'], text=True).strip()
 subprocess.run(['git', '-C', trial, 'checkout', '-q', '--detach', head], check=True)
 subprocess.run(['git', '-C', trial, 'checkout', '-q', '--', '.'], check=True)
